@@ -55,9 +55,13 @@ SRV = "storage.server:StorageServer"
 
 
 # ---------------------------------------------------------------- helpers
-def P(s: str) -> str:
+def PP(s: str) -> Poly:
     """Polynomial normal form of a source expression (no local substitution)."""
-    return str(Normaliser(Env(None, depth=0)).poly(parse_expr(s)))
+    return Normaliser(Env(None, depth=0)).poly(parse_expr(s))
+
+
+def P(s: str) -> str:
+    return str(PP(s))
 
 
 _NEGOP = {ast.Eq: ast.NotEq, ast.NotEq: ast.Eq, ast.Lt: ast.GtE, ast.LtE: ast.Gt, ast.Gt: ast.LtE, ast.GtE: ast.Lt}
@@ -438,6 +442,88 @@ def _in_loop(cfg, head, n):
     return lo <= n.lineno <= hi
 
 
+def _quantified_refusal(st):
+    """``if any(E for ..): <..; raise>`` / ``if not all(E for ..): <..; raise>`` -> (comprehension, negate E?) or None.
+    Only a straight-line body ending in a raise is accepted: then the statement means the same as the loop nest
+    ``for ..: if E: <..; raise>`` (the body runs at most once either way)."""
+    if not isinstance(st, ast.If) or st.orelse or not st.body or not isinstance(st.body[-1], ast.Raise):
+        return None
+    if any(isinstance(x, (ast.For, ast.While, ast.Try, ast.With, ast.If)) for x in st.body):
+        return None
+    t, neg = st.test, False
+    while isinstance(t, ast.UnaryOp) and isinstance(t.op, ast.Not):
+        t, neg = t.operand, not neg
+    if not (isinstance(t, ast.Call) and isinstance(t.func, ast.Name) and t.func.id in ("any", "all") and len(t.args) == 1
+            and not t.keywords and isinstance(t.args[0], (ast.GeneratorExp, ast.ListComp, ast.SetComp))):
+        return None
+    if (t.func.id == "all") != neg:
+        return None                   # `if all(..): raise` / `if not any(..): raise` are no existential refusals
+    if any(g.is_async for g in t.args[0].generators):
+        return None
+    return t.args[0], neg
+
+
+class _RenameNames(ast.NodeTransformer):
+    def __init__(self, mapping):
+        self.mapping = mapping
+
+    def visit_Name(self, node):
+        if node.id in self.mapping:
+            node.id = self.mapping[node.id]
+        return node
+
+
+def quantifiers_as_loops(fn):
+    """A refusal written with a quantifier - ``if any(cond for .. in vectors for .. in datav): raise X`` or
+    ``if not all(ok ..): raise X`` - is the loop nest ``for ..: for ..: if cond: raise X``.  Returns a scratch FuncInfo
+    (deep copy of the function, source locations kept) in which such statements are spelt as loops, or fn itself
+    when it holds none.  The names a comprehension binds live in its own scope, so they get fresh names in the loop
+    form (the first iterable is evaluated in the enclosing scope and keeps its names)."""
+    if not any(_quantified_refusal(x) for x in func_own_nodes(fn)):
+        return fn
+    import copy
+    node = copy.deepcopy(fn.node)
+    counter = [0]
+
+    class T(ast.NodeTransformer):
+        def visit_FunctionDef(self, n):
+            if n is node:
+                self.generic_visit(n)
+            return n
+        visit_AsyncFunctionDef = visit_FunctionDef
+
+        def visit_Lambda(self, n):
+            return n
+
+        def visit_If(self, st):
+            self.generic_visit(st)
+            q = _quantified_refusal(st)
+            if q is None:
+                return st
+            comp, neg = q
+            bound = set()
+            for g in comp.generators:
+                bound |= {x.id for x in ast.walk(g.target) if isinstance(x, ast.Name)}
+            counter[0] += 1
+            ren = _RenameNames({b: "%s__q%d" % (b, counter[0]) for b in bound})
+            first = comp.generators[0].iter
+            comp.generators[0].iter = ast.Constant(value=None)
+            ren.visit(comp)
+            comp.generators[0].iter = first
+            cond = ast.copy_location(ast.UnaryOp(op=ast.Not(), operand=comp.elt), comp.elt) if neg else comp.elt
+            stmt = ast.copy_location(ast.If(test=cond, body=st.body, orelse=[]), st)
+            for g in reversed(comp.generators):
+                for c in reversed(g.ifs):
+                    stmt = ast.copy_location(ast.If(test=c, body=[stmt], orelse=[]), st)
+                stmt = ast.copy_location(ast.For(target=g.target, iter=g.iter, body=[stmt], orelse=[], type_comment=None), st)
+            return stmt
+    T().visit(node)
+    ast.fix_missing_locations(node)
+    g = FuncInfo(fn.module, node, fn.qual, fn.cls, fn.parent)
+    g.nested = dict(fn.nested)
+    return g
+
+
 # -------------------------------------------------------------------- rules
 def run(ctx: Context):
     idx = ctx.idx
@@ -558,29 +644,162 @@ def run(ctx: Context):
         NEW = "self.DATA_OFFSET + %s" % ncs
         SIZE = "4 + self._read_num_extra_leases(%s) * self.LEASE_SIZE" % f2
         reads = [n for n in ccfg.nodes if fcalls(n, f2, "read")]
+        OLDp, SIZEp = PP(OLD), PP(SIZE)
+        fo2 = get_folder(idx)
+
+        def num_format():
+            """struct format with which _read_num_extra_leases decodes the count in front of the block."""
+            g = idx.func(MSF + "._read_num_extra_leases")
+            fm = {_fold(fo2, sc[0], g) for sc in (struct_call(x, "unpack") for x in func_own_nodes(g)) if sc}
+            if len(fm) != 1 or not isinstance(list(fm)[0], str):
+                raise AnalysisError("_read_num_extra_leases: the format of the extra-lease count is not a single constant")
+            return fm.pop()
+
+        def piece(n, e):
+            """The part of the extra-lease block that expression e (evaluated at node n) holds ->
+            {kind, rn: node of this function at which the bytes are obtained, size: Poly, misplaced(delta) -> [(witness)]}:
+              raw     f.read(k) of this function: the k bytes at the position of the read;
+              helper  self.h(f) of a method that returns f.read(k) without writing: the k bytes at the helper's seek;
+              count   struct.pack(fmt, self._read_num_extra_leases(f)) with the format the reader decodes: the count
+                      field, i.e. the first calcsize(fmt) bytes of the block.
+            None when e is none of these."""
+            dn, a = def_of(cnm, n, e)
+            if a is None:
+                return None
+            at = dn or n
+            if isinstance(a, ast.Call):
+                for m in reads:
+                    if a in fcalls(m, f2, "read") and len(a.args) == 1:
+                        try:
+                            size = cnm.at(m).poly(a.args[0])
+                        except Exception:
+                            return None
+                        return dict(kind="raw", rn=m, size=size, node=a,
+                                    misplaced=lambda d, m=m: unpositioned(ccfg, cnm, f2, m, str(OLDp + d)))
+                nm = call_name(a)
+                if nm.startswith("self.") and nm.count(".") == 1 and len(a.args) == 1 and not a.keywords \
+                        and isinstance(a.args[0], ast.Name) and a.args[0].id == f2 and cs.cls is not None:
+                    h = cs.cls.lookup(nm[5:])
+                    if h is None or h is cs:
+                        return None
+                    hp = first_positional_params(h)
+                    if len(hp) != 1:
+                        return None
+                    if hp[0] != f2:
+                        raise AnalysisError("%s names the file %s, %s names it %s: the helper's reads are not compared" % (
+                            short(h), hp[0], short(cs), f2))
+                    hcfg, hnm = h.cfg(), FlowNorm(h)
+                    rets = hcfg.find(is_return)
+                    if len(rets) != 1 or rets[0].ast.value is None or any(
+                            call_tail(c) in ("write", "truncate", "writelines") or (call_name(c).startswith("self.") and call_name(c)[5:] not in (
+                                "_read_extra_lease_offset", "_read_num_extra_leases", "_read_data_length"))
+                            for x in hcfg.nodes for c in node_calls(x)):
+                        return None
+                    hd, hv = def_of(hnm, rets[0], rets[0].ast.value)
+                    hm = hd or rets[0]
+                    if not (isinstance(hv, ast.Call) and hv in fcalls(hm, f2, "read") and len(hv.args) == 1):
+                        return None
+                    try:
+                        size = hnm.at(hm).poly(hv.args[0])
+                    except Exception:
+                        return None
+                    return dict(kind="helper", rn=at, size=size, node=a,
+                                misplaced=lambda d, hm=hm, hcfg=hcfg, hnm=hnm: unpositioned(hcfg, hnm, f2, hm, str(OLDp + d)))
+                sc = struct_call(a, "pack")
+                if sc and len(sc[1]) == 1 and poly_at(cnm, at, sc[1][0]) == P("self._read_num_extra_leases(%s)" % f2):
+                    fm = _fold(fo2, sc[0], cs)
+                    if not isinstance(fm, str) or fm != num_format():
+                        return None
+                    vd = def_of(cnm, at, sc[1][0])[0]
+                    return dict(kind="count", rn=vd or at, size=Poly.const(struct_calcsize(fm)), node=a,
+                                misplaced=lambda d: [] if str(d) == "0" else [(None, None)])
+            return None
+
+        def size_of(n, e):
+            """Poly of e at node n in which len(X), X holding a piece read from the file, stands for the size read."""
+            import copy
+            e2, found = copy.deepcopy(e), []
+
+            class L(ast.NodeTransformer):
+                def visit_Call(self, c):
+                    if isinstance(c.func, ast.Name) and c.func.id == "len" and len(c.args) == 1 and not c.keywords:
+                        orig = c.args[0]
+                        if isinstance(orig, ast.Name):
+                            p_ = piece(n, orig)
+                            if p_ is not None and p_["kind"] in ("raw", "helper"):
+                                found.append(p_["size"])
+                                return ast.copy_location(ast.Name(id="len__piece%d" % (len(found) - 1), ctx=ast.Load()), c)
+                    return self.generic_visit(c)
+            e2 = L().visit(e2)
+            try:
+                pl = cnm.at(n).poly(e2)
+            except Exception:
+                return None
+            out = Poly()
+            for k, v in pl.t.items():
+                ph = [x for x in k if x.startswith("len__piece")]
+                if not ph:
+                    out = out + Poly({k: v})
+                elif len(k) == 1:
+                    out = out + found[int(k[0][len("len__piece"):])] * Poly.const(v)
+                else:
+                    return None
+            return out
+
         back, zeros = [], []
         for n in ccfg.nodes:
-            for c in fcalls(n, f2, "write"):
+            ws = fcalls(n, f2, "write")
+            if len(ws) > 1:
+                raise AnalysisError("_change_container_size: several file writes in one statement")
+            for c in ws:
                 a = def_of(cnm, n, c.args[0])[1] if len(c.args) == 1 else None
+                pc = piece(n, c.args[0]) if len(c.args) == 1 else None
                 if a is not None and zero_count(a) is not None:
                     zeros.append((n, c, zero_count(a)))
-                elif isinstance(a, ast.Call) and any(a in fcalls(m, f2, "read") for m in reads):
-                    back.append((n, c, a))
+                elif pc is not None:
+                    back.append((n, c, pc))
                 else:
                     r.violation(cs, cs.loc(c), "_change_container_size writes %s: neither the lease bytes it read nor a "
                                 "zero fill" % src(cs, c.args[0] if c.args else c))
         r.site(cs, None, "lease block read")
         r.site(cs, None, "lease block write-back")
         r.site(cs, None, "extra-lease offset update")
-        for (n, c, a) in back:
-            rn = [m for m in reads if a in fcalls(m, f2, "read")][0]
-            r.require(len(a.args) == 1 and poly_at(cnm, rn, a.args[0]) == P(SIZE), cs, cs.loc(a),
-                      "lease block read has size %s, not 4 + num_extra_leases * LEASE_SIZE" % src(cs, a.args[0] if a.args else a))
-            for (t, w) in unpositioned(ccfg, cnm, f2, rn, P(OLD)):
-                r.violation(cs, cs.loc(a), "lease block is not read at the old extra-lease offset (path: %s)" % w.brief(), w)
-            for (t, w) in unpositioned(ccfg, cnm, f2, n, P(NEW)):
-                r.violation(cs, cs.loc(c), "lease block is not written back at DATA_OFFSET + new_container_size "
-                            "(path: %s)" % w.brief(), w)
+        # where inside the block each write-back lands: the first one is positioned by seek(DATA_OFFSET + new size), the
+        # next one continues where the previous write-back stopped (no file operation in between)
+        delta = {}
+        for (n, c, pc) in back:
+            if not unpositioned(ccfg, cnm, f2, n, P(NEW)):
+                delta[n.id] = Poly()
+        progress = True
+        while progress:
+            progress = False
+            for (n, c, pc) in back:
+                if n.id in delta:
+                    continue
+                for (pn, _c, ppc) in back:
+                    if pn.id in delta and pn is not n and not find_path_avoiding(
+                            ccfg, lambda x, n=n: x is n, gate_node=lambda x, pn=pn: x is pn, kill=lambda x: bool(fileops(x, f2))):
+                        delta[n.id] = delta[pn.id] + ppc["size"]
+                        progress = True
+                        break
+        total = Poly()
+        for (n, c, pc) in back:
+            a = pc["node"]
+            if n.id not in delta:
+                for (t, w) in unpositioned(ccfg, cnm, f2, n, P(NEW)):
+                    r.violation(cs, cs.loc(c), "lease block is not written back at DATA_OFFSET + new_container_size "
+                                "(path: %s)" % w.brief(), w)
+                continue
+            total = total + pc["size"]
+            for (t, w) in pc["misplaced"](delta[n.id]):
+                if w is None:
+                    r.violation(cs, cs.loc(c), "the extra-lease count is written back %s bytes into the block, not at its start" % delta[n.id])
+                elif len(back) == 1:
+                    r.violation(cs, cs.loc(a), "lease block is not read at the old extra-lease offset (path: %s)" % w.brief(), w)
+                else:
+                    r.violation(cs, cs.loc(a), "the bytes written back %s bytes into the lease block were not read %s bytes behind the old "
+                                "extra-lease offset (path: %s)" % (delta[n.id], delta[n.id], w.brief()), w)
+            rn = pc["rn"]
             # zeroing of the old area: after the read, before the write-back (the areas may overlap)
             for (zn, zc, cnt) in zeros:
                 for (t, w) in find_path_avoiding(ccfg, lambda x: x is zn, gate_node=lambda x: x is rn):
@@ -588,18 +807,37 @@ def run(ctx: Context):
                 vis, par = explore(ccfg, 0, lambda a_, l_, b_, s_: None if l_ == "exc" else 0, start=n)
                 if any(i == zn.id for (i, _s) in vis if i != n.id):
                     r.violation(cs, cs.loc(zc), "old lease area is zeroed after the write-back: overlapping areas lose leases")
+            # the header still has to point at the old block when it is read
+            for un in ccfg.nodes:
+                if self_call(un, "_write_extra_lease_offset"):
+                    vis, par = explore(ccfg, 0, lambda a_, l_, b_, s_: None if l_ == "exc" else 0, start=un)
+                    if any(i == rn.id for (i, _s) in vis if i != un.id):
+                        r.violation(cs, cs.loc(a), "the lease block is read after the extra-lease offset in the header was moved")
+        if back and all(n.id in delta for (n, c, pc) in back):
+            if len(back) == 1 and back[0][2]["kind"] == "raw":
+                a = back[0][2]["node"]
+                r.require(total == SIZEp, cs, cs.loc(a),
+                          "lease block read has size %s, not 4 + num_extra_leases * LEASE_SIZE" % src(cs, a.args[0] if a.args else a))
+            else:
+                r.require(total == SIZEp, cs, cs.loc(back[0][1]),
+                          "the pieces written back have size %s together, not 4 + num_extra_leases * LEASE_SIZE" % total)
         for (zn, zc, cnt) in zeros:
             for (t, w) in unpositioned(ccfg, cnm, f2, zn, P(OLD)):
                 r.violation(cs, cs.loc(zc), "zero fill in _change_container_size is not at the old extra-lease offset "
                             "(path: %s)" % w.brief(), w)
-            r.require(poly_at(cnm, zn, cnt) == P(SIZE), cs, cs.loc(zc), "zero fill covers %s bytes, not the lease "
+            r.require(size_of(zn, cnt) == SIZEp, cs, cs.loc(zc), "zero fill covers %s bytes, not the lease "
                       "block size" % src(cs, cnt))
         shrink = le_facts("%s - (%s)" % (OLD, NEW))
         keep = lambda n, lab: lin_fact(cnm, n, lab) in shrink
-        bn = {n.id for (n, c, a) in back}
-        for (n, w) in find_path_avoiding(ccfg, lambda n: n.kind == "exit", gate_node=lambda n: n.id in bn, gate_edge=keep):
-            r.violation(cs, cs.loc(), "_change_container_size can return without writing the lease block back "
-                        "(path: %s)" % w.brief(), w)
+        if not back:
+            for (n, w) in find_path_avoiding(ccfg, lambda n: n.kind == "exit", gate_node=lambda n: False, gate_edge=keep):
+                r.violation(cs, cs.loc(), "_change_container_size can return without writing the lease block back "
+                            "(path: %s)" % w.brief(), w)
+        for (bn_, _c, _pc) in back:
+            for (n, w) in find_path_avoiding(ccfg, lambda n: n.kind == "exit", gate_node=lambda n, bn_=bn_: n is bn_, gate_edge=keep):
+                r.violation(cs, cs.loc(), "_change_container_size can return without writing the lease block back "
+                            "(path: %s)" % w.brief(), w)
+                break
 
         def upd(n):
             return any(len(c.args) == 2 and poly_at(cnm, n, c.args[1]) == P(NEW) for c in self_call(n, "_write_extra_lease_offset", f2))
@@ -871,6 +1109,17 @@ def run(ctx: Context):
             if g.cls is None or g.cls.name != "MutableShareFile" or g.name not in table:
                 for c in sites:
                     r.violation(g, g.loc(c), "unclassified file write reachable from writev: %s in %s" % (src(g, c), short(g)))
+            elif g.name == "_change_container_size":
+                # C23.2 classifies every f.write of this function (zero fill of the old area / a piece of the lease block
+                # written back, however many pieces the block is moved in) and reports any other; anything that is not a
+                # plain write of the file it was handed is not classified there
+                fpar = first_positional_params(g)[:1]
+                for c in sites:
+                    if not (call_tail(c) == "write" and isinstance(c.func.value, ast.Name) and [c.func.value.id] == fpar):
+                        r.violation(g, g.loc(c), "unclassified file write reachable from writev: %s in %s" % (src(g, c), short(g)))
+                if len(sites) < table[g.name]:
+                    r.violation(g, g.loc(), "%s has %d file writes, %d are classified (see C23.1/C23.2)" % (
+                        short(g), len(sites), table[g.name]))
             elif len(sites) != table[g.name]:
                 r.violation(g, g.loc(), "%s has %d file writes, %d are classified (see C23.1/C23.2)" % (
                     short(g), len(sites), table[g.name]))
@@ -1050,7 +1299,7 @@ def run(ctx: Context):
                   "quantities exceeds (or reaches) MAX_SIZE", expected=1) as r:
         for qual in (MSF + "._write_share_data", MSF + "._change_container_size", MSF + ".writev",
                      SRV + "._evaluate_write_vectors"):
-            fn = idx.func(qual)
+            fn = quantifiers_as_loops(idx.func(qual))     # `if any(end > MAX_SIZE for ..): raise` read as the loops it abbreviates
             cfg = fn.cfg()
             fnm = FlowNorm(fn)
 
